@@ -13,6 +13,13 @@ Generated/ArrowVersions.lean (property C19): the arrow / arrow2 versions as they
   * serde_arrow/src/lib.rs   `#[cfg(has_arrow_N)] build_arrow_crate!(arrow_array_N, arrow_schema_N);`,
                              `#[cfg(has_arrow2_0_N)] pub use arrow2_0_N as arrow2;`
 The consistency of these lists is a `decide` obligation in lean/SaModel/Props/C19.lean.
+
+Generated/CoerceArms.lean (property C07): see coerce_arms.py — the arms of `coerce_primitive_type` (tracer.rs) as data,
+`TracingOptions::string_type`.  Obligations: lean/SaModel/Props/C07Gen.lean.
+Generated/TypeNames.lean (property C09): see type_names.py — the name tables of `build_data_type`,
+`PrettyFieldDataType`, `is_data_type_with_children`, `Term::as_option`, `Strategy` Display / FromStr.  Obligations:
+lean/SaModel/Props/C09Gen.lean.
+What each parser recognises and refuses: notes/translator.md.
 """
 import os
 import re
